@@ -85,7 +85,7 @@ def scenario(rng, mix=None, adversarial=False):
         mix = gen.some_mixture(rng, p_builtin=0.6)
     model = gen.tstr(rng, rng.choice(["NRTL", "UNIQUAC"]))
     mode = rng.choice(["vac", "temp", "temp", "temp", "press", "press", "press0"])
-    T = gen.as_given(rng, rng.uniform(273.0, 400.0))
+    T = gen.as_given(rng, gen.edge_temperature(rng))
     sc = {"mix": mix, "model": model, "mode": mode, "T": T, "xw": gen.fraction(rng, ends=rng.random() < 0.3),
           "ctype": gen.tstr(rng, "weight" if rng.random() < 0.8 else "molar"),
           "P1": gen.logu(rng, 1e-6, 1.0), "P2": gen.logu(rng, 1e-6, 1.0),
